@@ -19,6 +19,11 @@ pub enum Step {
     GrowBy { times: u8, content_len: u32 },
     /// several threads store at the same time (thread 0 stores ephemeral kinds); writers only
     ConcurrentStores { threads: u8, per_thread: u8 },
+    /// remove the i-th stored event (u16::MAX: the one stored last); references to it stay held
+    Remove { of: u16 },
+    /// a deletion request by another author naming the i-th stored event: refused (InvalidDelete) after its bytes
+    /// were appended
+    RejectedDelete { of: u16 },
 }
 
 #[derive(Clone, Debug, Serialize, Deserialize)]
@@ -92,7 +97,7 @@ impl Prop for C15 {
         "C15"
     }
     fn rule(&self) -> String {
-        "Cases: sequences of 1..25 steps: store an event (from this or another thread), take a reference to an earlier event (by offset, by id, from a query) remembering its address and a copy of its bytes, or store filler events until the backing file has grown 1..3 more times. 30% of the sequences run in a directory on the block file system under the verification root (ext4 here), the others on tmpfs. In 80% of the cases one PROT_NONE page is mapped (MAP_FIXED_NOREPLACE) directly behind the current mapping before each store, so that growth cannot extend in place and a moving remap is forced deterministically instead of depending on address-space luck. Oracle after every step, for every held reference: a fresh get_event_by_offset of the same offset has the same address, and the fresh bytes equal the copy taken when the reference was obtained; the stale reference itself is never dereferenced. Non-trivial: >= 1 reference held across >= 1 growth.".into()
+        "Cases: sequences of 1..25 steps: store an event (from this or another thread), take a reference to an earlier event (by offset, by id, from a query) remembering its address and a copy of its bytes, or store filler events until the backing file has grown 1..3 more times, or remove a stored event (any, or the one stored last) or submit a deletion request that is refused after its bytes were appended - references taken before stay held. 30% of the sequences run in a directory on the block file system under the verification root (ext4 here), the others on tmpfs. In 80% of the cases one PROT_NONE page is mapped (MAP_FIXED_NOREPLACE) directly behind the current mapping before each store, so that growth cannot extend in place and a moving remap is forced deterministically instead of depending on address-space luck. Oracle after every step, for every held reference: a fresh get_event_by_offset of the same offset has the same address, and the fresh bytes equal the copy taken when the reference was obtained; the stale reference itself is never dereferenced. Non-trivial: >= 1 reference held across >= 1 growth.".into()
     }
     fn assumptions(&self) -> Vec<String> {
         vec![
@@ -117,6 +122,8 @@ impl Prop for C15 {
             4 => (any::<u16>(), 0u8..3).prop_map(|(of, how)| Step::TakeRef { of, how }),
             2 => (1u8..4, prop::sample::select(if cfg!(debug_assertions) { vec![200u32, 900, 3000] } else { vec![400_000u32, 1_500_000, 3_000_000] })).prop_map(|(times, content_len)| Step::GrowBy { times, content_len }),
             1 => (2u8..5, 8u8..40).prop_map(|(threads, per_thread)| Step::ConcurrentStores { threads, per_thread }),
+            2 => prop_oneof![1 => any::<u16>(), 1 => Just(u16::MAX)].prop_map(|of| Step::Remove { of }),
+            1 => any::<u16>().prop_map(|of| Step::RejectedDelete { of }),
         ];
         (prop::collection::vec(step, 1..25), prop::bool::weighted(0.8), prop::bool::weighted(0.3))
             .prop_map(|(steps, force_move, disk)| Case { steps, force_move, disk })
@@ -261,9 +268,26 @@ impl Prop for C15 {
                 Step::ConcurrentStores { threads, per_thread } => {
                     out.label("concurrent-stores");
                     let mut batches: Vec<Vec<usize>> = Vec::new();
+                    let victim: Option<MEvent> = stored.iter().map(|(_, i)| w.events[*i].clone()).find(|e| e.kind == 1);
                     for t in 0..*threads {
                         let mut b = Vec::new();
                         for k in 0..*per_thread {
+                            if let (1, true, Some(v)) = (t, *threads >= 3, victim.as_ref()) {
+                                // thread 1 (of three or more): deletion requests by somebody else, refused after their
+                                // bytes were appended
+                                let requester = (0u8..4).map(author).find(|a| *a != v.pubkey).unwrap();
+                                let m = MEvent {
+                                    id: hex(&crate::sha256::sha256(format!("c15-cdel-{stepno}-{k}").as_bytes())),
+                                    pubkey: requester,
+                                    sig: "00".repeat(64),
+                                    kind: 5,
+                                    created_at: 400 + k as u64,
+                                    tags: vec![vec!["e".to_string(), v.id.clone()]],
+                                    content: String::new(),
+                                };
+                                b.push(w.intern(m, None));
+                                continue;
+                            }
                             let ge = GenEvent {
                                 author: t % 4,
                                 kind: if t == 0 { 20000 + (k as u16 % 3) } else { 1 },
@@ -325,6 +349,49 @@ impl Prop for C15 {
                             }
                             _ => {}
                         }
+                    }
+                }
+                Step::Remove { of } => {
+                    if stored.is_empty() {
+                        continue;
+                    }
+                    let (_, i) = if *of == u16::MAX { *stored.last().unwrap() } else { stored[idx16(*of, stored.len())] };
+                    let id = w.events[i].id.clone();
+                    if let Res::Panic(k) = w.remove_id(&id) {
+                        out.fail(format!("C15:{k}"), format!("step {stepno}: remove"));
+                        return out;
+                    }
+                    out.label("remove-step");
+                }
+                Step::RejectedDelete { of } => {
+                    if stored.is_empty() {
+                        continue;
+                    }
+                    let (_, i) = stored[idx16(*of, stored.len())];
+                    let victim = w.events[i].clone();
+                    // a requester that is not the author
+                    let requester = (0u8..4).map(author).find(|a| *a != victim.pubkey).unwrap();
+                    let m = MEvent {
+                        id: hex(&crate::sha256::sha256(format!("c15-del-{stepno}").as_bytes())),
+                        pubkey: requester,
+                        sig: "00".repeat(64),
+                        kind: 5,
+                        created_at: 200,
+                        tags: vec![vec!["e".to_string(), victim.id.clone()]],
+                        content: String::new(),
+                    };
+                    let j = w.intern(m, None);
+                    match w.store_idx(j) {
+                        Res::Panic(k) => {
+                            out.fail(format!("C15:{k}"), format!("step {stepno}: rejected deletion request"));
+                            return out;
+                        }
+                        Res::InvalidDelete => out.label("rejected-delete-step"),
+                        Res::Ok(off) => {
+                            let _ = w.offsets.insert(off, j);
+                            stored.push((off, j));
+                        }
+                        _ => {}
                     }
                 }
                 Step::TakeRef { of, how } => {
